@@ -11,8 +11,8 @@
 // lines:  POST i (hook own.locked, mutex held, message i is being accepted)   ACCEPTED i p (the
 //   logging call of producer p for message i has returned)   TAKE / DONE (hooks worker.before_process
 //   / worker.decremented)   DELIVER i a|s (recording sink is done with i; s = on the caller's thread)
-//   RLOCKED / RWAIT / RQUIT (hooks reset.locked / reset.waiting / reset.quit)   MOVE   STOP_BEGIN
-//   STOP_END (explicit resetOwnThread() returned, or exec() returned after quit)   APP_DYING APP_GONE
+//   RLOCKED t / RWAIT t / RQUIT t (hooks reset.locked / reset.waiting / reset.quit on stopper thread t)
+//   MOVE   STOP_BEGIN   STOP_END t (explicit resetOwnThread() returned, or exec() returned after quit)   APP_DYING APP_GONE
 //   MAIN_RETURN   EXIT (atexit handler registered before the logger singleton exists, i.e. run
 //   after its destructor)   OVERLAP i (two threads inside the sink)   FOREIGN i (a message not
 //   produced by the harness, e.g. a Qt warning, was given id i)
@@ -51,7 +51,8 @@ static void emitf(const char *fmt, ...)
 
 static thread_local int t_cur = -1;       // message the calling producer is logging
 static thread_local bool t_in_call = false;
-static thread_local bool t_posted = false;  // the handler under test took the current message (hook own.locked)
+static thread_local bool t_posted = false;
+static thread_local int t_stopper = 0;      // which stopper thread this is (0 = main thread)  // the handler under test took the current message (hook own.locked)
 static std::atomic<int> g_next { 0 };
 static std::atomic<int> g_entered { 0 };
 static std::atomic<int> g_inside { 0 };
@@ -77,9 +78,9 @@ extern "C" void qtlogger_verif_point(const char *name)
         emitf("POST %d\n", id);
     } else if (!strcmp(name, "worker.before_process")) emitf("TAKE\n");
     else if (!strcmp(name, "worker.decremented")) emitf("DONE\n");
-    else if (!strcmp(name, "reset.locked")) emitf("RLOCKED\n");
-    else if (!strcmp(name, "reset.waiting")) emitf("RWAIT\n");
-    else if (!strcmp(name, "reset.quit")) emitf("RQUIT\n");
+    else if (!strcmp(name, "reset.locked")) emitf("RLOCKED %d\n", t_stopper);
+    else if (!strcmp(name, "reset.waiting")) emitf("RWAIT %d\n", t_stopper);
+    else if (!strcmp(name, "reset.quit")) emitf("RQUIT %d\n", t_stopper);
     for (int i = 0; i < g_nyield; i++)
         if (!strcmp(name, g_yield[i].name)) usleep(g_yield[i].us);
 }
@@ -183,14 +184,15 @@ static void setup(bool async, bool cfg, int delay)
 static void doReset()
 {
     emitf("STOP_BEGIN\n");
-    if (g_concurrent) { // probe only: two threads stop at the same time (outside the model)
-        std::thread t([]() { L->resetOwnThread(); });
+    if (g_concurrent) { // two threads stop at the same time
+        std::thread t([]() { t_stopper = 1; L->resetOwnThread(); emitf("STOP_END 1\n"); });
         L->resetOwnThread();
+        emitf("STOP_END 0\n");
         t.join();
     } else {
         L->resetOwnThread();
+        emitf("STOP_END 0\n");
     }
-    emitf("STOP_END\n");
 }
 
 static void on_exit_handler() { emitf("EXIT\n"); }
@@ -245,7 +247,7 @@ int main(int argc, char **argv)
         if (loop) { // an event loop has run (and aboutToQuit has stopped the worker); go asynchronous again
             QTimer::singleShot(0, app, [&]() { burst(1, false); emitf("STOP_BEGIN\n"); app->quit(); });
             app->exec();
-            emitf("STOP_END\n");
+            emitf("STOP_END 0\n");
             if (async) doMove();
         }
         burst(backlog, stagger);
@@ -281,7 +283,7 @@ int main(int argc, char **argv)
                 burst(backlog, stagger);
                 emitf("STOP_BEGIN\n");
                 delete L;
-                emitf("STOP_END\n");
+                emitf("STOP_END 0\n");
                 L = nullptr;
             } else if (path == "reset") {
                 burst(backlog, stagger);
@@ -313,7 +315,7 @@ int main(int argc, char **argv)
                 app.quit();
             });
             app.exec(); // aboutToQuit -> resetOwnThread
-            if (viaQuit) emitf("STOP_END\n");
+            if (viaQuit) emitf("STOP_END 0\n");
         } else {
             body();
         }
